@@ -3,7 +3,7 @@
     Hermite interpolation; C20_Control: adjustStepSize and the retry loop of takeOneStep) and gives
     non-vacuity examples for the hypotheses used there. *)
 From Coq Require Import ZArith List Reals Lra.
-Require Export Num C20_Model C20_Tableau C20_Poly C20_Control.
+Require Export Num C20_Model C20_Tableau C20_Poly C20_Control C20_Norm.
 Import ListNotations.
 Open Scope R_scope.
 
